@@ -150,6 +150,23 @@ func (f *g2lFn) call(b *binds, e *ast.CallExpr) string {
 		return t
 	}
 	if id, ok := e.Fun.(*ast.Ident); ok {
+		if v, ok := f.p.info.Uses[id].(*types.Var); ok {
+			if _, isSig := v.Type().Underlying().(*types.Signature); isSig {
+				if _, isClosure := f.closures[v]; !isClosure {
+					return "(" + f.varName(v) + " " + strings.Join(f.args(b, e), " ") + ")"
+				}
+			}
+		}
+	}
+	if strings.Join(strings.Fields(show(e.Fun)), "") == "io.Copy" && len(e.Args) == 2 {
+		if dst, ok := e.Args[0].(*ast.Ident); ok && f.leanType(f.typeOf(dst), e) == "Bytes" {
+			src := f.expr(b, e.Args[1])
+			b.add(fmt.Sprintf("let %s := %s ++ %s", f.name(dst), f.name(dst), src))
+			b.noteRebound(f.name(dst))
+			return "((len " + src + "), (none : Option String))"
+		}
+	}
+	if id, ok := e.Fun.(*ast.Ident); ok {
 		if cl, ok := f.closures[f.p.info.Uses[id]]; ok {
 			args := f.args(b, e)
 			all := append(append(append([]string{}, cl.captured...), args...), cl.modified...)
@@ -838,6 +855,9 @@ func (f *g2lFn) assignedOuter(nodes []ast.Node, before token.Pos) []*types.Var {
 						}
 					}
 				}
+				if src0 := strings.Join(strings.Fields(show(n.Fun)), ""); (src0 == "io.Copy" || src0 == "fmt.Fprintf" || f.u.mutCalls[src0] != "") && len(n.Args) >= 1 {
+					add(n.Args[0])
+				}
 				// copy(dst[...], src) assigns to dst
 				if id, ok := n.Fun.(*ast.Ident); ok && id.Name == "copy" && len(n.Args) == 2 {
 					if se, ok := n.Args[0].(*ast.SliceExpr); ok {
@@ -1237,6 +1257,8 @@ func (f *g2lFn) sprintf(b *binds, e *ast.CallExpr) string {
 			}
 		case (verb == 's' || verb == 'v') && isBytesLike(at) && width == 0:
 			parts = append(parts, x)
+		case verb == 'x' && isBytesLike(at) && width == 0:
+			parts = append(parts, "(hexBytes "+x+")")
 		case (verb == 's' || verb == 'v') && width == 0 && f.absStringer(at) != "":
 			parts = append(parts, "("+f.absStringer(at)+" "+x+")")
 		default:
@@ -1286,6 +1308,20 @@ func (f *g2lFn) exprStmtCall(c *ast.CallExpr) ([]string, bool) {
 	}
 	if sel, ok := c.Fun.(*ast.SelectorExpr); ok && f.u.ignoreCalls[sel.Sel.Name] {
 		return []string{}, true
+	}
+	src0 := strings.Join(strings.Fields(show(c.Fun)), "")
+	if src0 == "fmt.Fprintf" && len(c.Args) >= 2 {
+		if dst, ok := c.Args[0].(*ast.Ident); ok && f.leanType(f.typeOf(dst), c) == "Bytes" {
+			c2 := *c
+			c2.Args = c.Args[1:]
+			txt := f.sprintf(&b, &c2)
+			return append(b.lines, fmt.Sprintf("let %s := %s ++ %s", f.name(dst), f.name(dst), txt)), true
+		}
+	}
+	if fn, ok := f.u.mutCalls[src0]; ok && len(c.Args) == 1 {
+		if dst, ok := c.Args[0].(*ast.Ident); ok {
+			return []string{fmt.Sprintf("let %s := %s %s", f.name(dst), fn, f.name(dst))}, true
+		}
 	}
 	if sel, ok := c.Fun.(*ast.SelectorExpr); ok {
 		if id, ok := sel.X.(*ast.Ident); ok {
